@@ -61,3 +61,55 @@ def load(spec, dic=None):
         expand_plates(data)
         process_objects(data, dic)
     return dic
+
+
+class _Collect(logging.Handler):
+    def __init__(self):
+        super().__init__()
+        self.messages = []
+
+    def emit(self, record):
+        if record.levelno >= logging.ERROR:
+            self.messages.append(record.getMessage())
+
+
+def load_main(spec):
+    """Load a specification through the real entry point: torchtree.torchtree.main() with
+    `- --dry` and the document on stdin.  The registry is captured by wrapping the module
+    global process_objects from outside; a JSONParseError that main() logs is re-raised."""
+    import contextlib
+    import io
+    import json
+
+    boot()
+    import torchtree.torchtree as entry
+    from torchtree.core.utils import JSONParseError
+
+    captured = {}
+    original = entry.process_objects
+
+    def wrapper(element, dic):
+        captured["dic"] = dic
+        return original(element, dic)
+
+    handler = _Collect()
+    root = logging.getLogger()
+    if not root.handlers:
+        root.addHandler(logging.NullHandler())  # keeps main()'s basicConfig from printing
+    root.addHandler(handler)
+    logging.disable(logging.NOTSET)
+    argv, stdin = sys.argv, sys.stdin
+    sys.argv = ["torchtree", "-", "--dry"]
+    sys.stdin = io.StringIO(json.dumps(spec))
+    entry.process_objects = wrapper
+    try:
+        with contextlib.redirect_stdout(io.StringIO()):
+            entry.main()
+    finally:
+        entry.process_objects = original
+        sys.argv, sys.stdin = argv, stdin
+        root.removeHandler(handler)
+        logging.disable(logging.CRITICAL)
+    if handler.messages:
+        raise JSONParseError(handler.messages[0])
+    return captured.get("dic", {})
